@@ -9,7 +9,7 @@ package server
 // output (VERIF_OUT): "#cfg patched=<0|1>", then per scenario
 //    <id> <observation> ...
 //    #replay <id> <cfg> <now> <users> <steps with the byte counts the connections saw>
-//    #ses <id> <k>:<uid>:<closed>:<bornDead>:<bytes read by deplex>:<bytes written by the switchboard> ...
+//    #ses <id> <k>:<uid>:<closed>:<bornDead>:<bytes read by deplex>:<bytes written by the switchboard>:<of which notice frame> ...
 //    #orph <id> <k>,...      live sessions the panel cannot reach at the end (quiescent scenarios)
 //    #blocked <id> <t>,...   threads still waiting for a lock at the end although nobody is parked
 //    #hang <id> <file>       goroutine dump
@@ -65,6 +65,7 @@ func (r *vfC17Rig) realDispatch(sta *State, pub interface{}, uid int, sid uint32
 			ServerPubKey: pub, MockDomain: "www.example.com", WorldState: sta.WorldState}
 		key, err := tls.Handshake(cEnd, ai)
 		res <- vfC17RealRes{key, err}
+		io.Copy(io.Discard, cEnd) // net.Pipe is synchronous: keep reading what the server sends (notice frames)
 	}()
 	return t, res, cEnd
 }
@@ -117,7 +118,9 @@ func vfC17F5Real(dir string) string {
 	user0.sessionsM.RUnlock()
 	// 2. second connection (session id 2): the dispatcher resolves the user and is held at dispatch.gotUser
 	t2, res2, _ := r.realDispatch(sta, pub, 1, 2, true)
-	r.settle()
+	for i := 0; i < 100000 && !t2.parked.Load(); i++ {
+		time.Sleep(100 * time.Microsecond)
+	}
 	if !t2.parked.Load() {
 		return "#f5real err=second-dispatcher-did-not-reach-the-schedule-point"
 	}
